@@ -214,6 +214,8 @@ def render_brackets(T, rnd, emptyroot=False, numbers=False):
         x = nodes[i]
         if x['tok']:
             w = str(x['y'][0]) if numbers else un(x['a']['word'])
+            if x.get('_emptypos'):
+                return '(' + w + ')'            # brackets_emptypos: a word without a POS tag
             return '(' + un(x['a']['lab']) + rnd.choice([' ', '  ']) + w + ')'
         ks = sorted(kids[i], key=lambda k: min(nodes[k]['y']))
         lab = '' if (top and emptyroot) else un(x['a']['lab'])
@@ -347,6 +349,14 @@ def record_corpus_case(cid, Ts, fmt, opts, sep, mods, seed, origin='tlc'):
         inputs = [export_lines(p) for p in parts]
         expsids = [k + 1 for k in range(len(Ts))] if 'continuous' in opts else sids
     elif fmt == 'brackets':
+        if 'brackets_emptypos' in opts:
+            import copy
+            Ts = copy.deepcopy(Ts)
+            for T in Ts:
+                for x in T['nodes']:
+                    if x['tok'] and rnd.random() < 0.5:
+                        x['_emptypos'] = True
+                        x['a']['lab'] = ch('EMPTY')
         er = rnd.random() < 0.4
         text = rnd.choice(['\n', '\n\n', ' ']).join(render_brackets(T, rnd, emptyroot=er) for T in Ts) + rnd.choice(['\n', ''])
         expsids = [firstid + k for k in range(len(Ts))]
